@@ -172,6 +172,8 @@ def sym(E, p, kf):
 
 
 def kf_match(case):
+    if "lens" not in case or "p" not in case or "op" not in case["p"]:
+        return []
     p = case["p"]
     if p["op"].startswith("acc_") and case["lens"] and case["lens"][-1] == 0 and sum(case["lens"]) > 0:
         return ["KF-C07-1"]
